@@ -42,6 +42,9 @@ abbrev HId := Nat
 inductive Val where
   | none
   | tok (h : HId) (n : Nat)
+  /-- not a value: the exception the n-th invocation of `load()` of handle h raised, on its way out of
+  the access -/
+  | exc (h : HId) (n : Nat)
 deriving DecidableEq, Repr, Inhabited
 
 /-- a value stored in a map -/
@@ -70,7 +73,10 @@ structure HNode where
   key : Option String := none
   cached : Bool := false
   cache : Val := .none
+  /-- number of `load()` invocations that returned -/
   loads : Nat := 0
+  /-- number of `load()` invocations, the raising ones included -/
+  tries : Nat := 0
 deriving Repr, Inhabited, DecidableEq
 
 inductive SAttr where
@@ -92,7 +98,12 @@ structure St where
   next : Nat := 0
   snaps : Dict Nat SNode := []
   snext : Nat := 0
+  /-- the loaders' script: does the k-th invocation of `load()` of handle h raise?  (never written) -/
+  failing : HId → Nat → Bool := fun _ _ => false
 deriving Inhabited
+
+/-- the program's initial state for a given loader script: every map empty, every handle fresh -/
+def init (failing : HId → Nat → Bool) : St := { failing := failing }
 
 /-- the map object `i` (objects that were never written are fresh `ResourceMap()`s) -/
 def St.m (st : St) (i : MId) : MapNode := (Dict.get? st.mapsD i).getD {}
@@ -121,10 +132,13 @@ def chainKeys (layers : List (Dict String HId)) : List String :=
 def callH (st : St) (h : HId) : St × Val :=
   let n := st.h h
   if n.cached then (st, n.cache)
+  else if st.failing h (n.tries + 1) then
+    -- self.load() raises: nothing is assigned, the exception leaves __call__
+    (st.setH h { n with tries := n.tries + 1 }, .exc h (n.tries + 1))
   else
     -- self._cache = self.load(); self._cached = True
     let v := Val.tok h (n.loads + 1)
-    (st.setH h { n with cache := v, cached := true, loads := n.loads + 1 }, v)
+    (st.setH h { n with cache := v, cached := true, loads := n.loads + 1, tries := n.tries + 1 }, v)
 
 /-- `Handle.clear` : tree.py:48-51 -/
 def clearH (st : St) (h : HId) : St :=
@@ -196,13 +210,18 @@ inductive Outcome (α : Type) where
   | stuck
 deriving DecidableEq, Repr, Inhabited
 
+/-- what an access that called the handle hands on: the loaded resource, or the loader's exception -/
+def itemOf : Val → Outcome Item
+  | .exc _ _ => .raised "LoadError"
+  | v => .ok (.val v)
+
 /-- `ResourceMap.__getitem__` on split keys : tree.py:200-211 -/
 def getItemPath (st : St) (i : MId) (ps : List String) (last : String) : St × Outcome Item :=
   match walk st i ps with
   | none => (st, .raised "KeyError")
   | some t =>
     match chainGet? (st.m t).layers last with
-    | some h => let r := callH st h; (r.1, .ok (.val r.2))
+    | some h => let r := callH st h; (r.1, itemOf r.2)
     | none =>
       match Dict.get? (st.m t).maps last with
       | some c => (st, .ok (.map c))
@@ -273,6 +292,10 @@ def setItemPath (st : St) (i : MId) (ps : List String) (last : String) (v : Ref)
 /-- `ResourceMap.__setitem__(key, value)` -/
 def setItem (st : St) (i : MId) (key : String) (v : Ref) : St :=
   setItemPath st i (keyPath key).1 (keyPath key).2 v
+
+/-- `m[key] = value` with a key that is not a `str`, or a value that is neither a ResourceMap nor a
+Handle: the assertions at tree.py:225-228 fail before anything is touched -/
+def setItemRejected (st : St) (_m : MId) : St × Outcome Unit := (st, .raised "AssertionError")
 
 /-- `m.handles.maps.insert(0, {})` (what the populator does on a conflict, model/__init__.py:180) -/
 def addLayer (st : St) (i : MId) : St :=
@@ -347,7 +370,7 @@ def sGetAttr1 (st : St) (s : Nat) (k : String) : St × Outcome Item :=
   if (st.s s).handleNames.contains k then
     -- return object.__getattribute__(self, name)()
     match Dict.get? (st.s s).attrs k with
-    | some (.handle h) => let r := callH st h; (r.1, .ok (.val r.2))
+    | some (.handle h) => let r := callH st h; (r.1, itemOf r.2)
     | some (.sub _) => (st, .raised "TypeError")
     | none => (st, .raised "AttributeError")
   else
@@ -382,6 +405,8 @@ def sDelAttr (st : St) (_s : Nat) (_k : String) : St × Outcome Unit := (st, .ra
 
 inductive Op where
   | set (m : MId) (key : String) (v : Ref)
+  /-- an assignment the assertions reject (bad key, non-resource value) -/
+  | reject (m : MId)
   | layer (m : MId)
   | clear (m : MId)
   | getitem (m : MId) (key : String)
@@ -413,6 +438,7 @@ def snapFuel (st : St) : Nat := st.mapsD.length + 2
 
 def step (st : St) : Op → St × Out
   | .set m key v => (setItem st m key v, .unit)
+  | .reject m => let r := setItemRejected st m; (r.1, .res r.2)
   | .layer m => (addLayer st m, .unit)
   | .clear m => (clearMap st m, .unit)
   | .getitem m key => let r := getItem st m key; (r.1, .item r.2)
@@ -483,10 +509,14 @@ def showPath (p : List String) : String :=
 
 def showVal : Val → String
   | .none => "val None"
+  | .exc _ _ => "raised LoadError"
   | .tok h n => s!"val h{h} {n}"
 
 def parsePathTok (t : String) : Option String :=
   if t.startsWith ":" then some (String.ofList (t.toList.drop 1)) else none
+
+def stripFail (t : String) : Option String :=
+  if t.startsWith "fail=" then some (String.ofList (t.toList.drop 5)) else none
 
 def parseNamed (c : Char) (t : String) : Option Nat :=
   match t.toList with
@@ -558,6 +588,27 @@ def execLine (r : RS) (line : String) : RS :=
     match parseNamed 'h' h with
     | some k => if r.hdecl.contains k then bad else { r with hdecl := r.hdecl ++ [k] }
     | none => bad
+  | ["newhandle", h, _kind, f] =>
+    -- `fail=1,3`: the 1st and the 3rd invocation of this handle's load() raise
+    match parseNamed 'h' h, (stripFail f).bind natList? with
+    | some k, some fails =>
+      if r.hdecl.contains k then bad
+      else
+        let old := r.st.failing
+        { r with hdecl := r.hdecl ++ [k],
+                 st := { r.st with failing := fun g n => if g = k then fails.contains n else old g n } }
+    | _, _ => bad
+  | ["op", "setkey", m, _badkey, _v] =>
+    -- `m[<not a str>] = v`
+    match parseNamed 'm' m with
+    | some _ =>
+      match Dict.get? r.menv m with
+      | some i =>
+        match (step r.st (.reject i)).2 with
+        | .res (.raised e) => r.emit s!"res raised {e}"
+        | _ => r.emit "res ok"
+      | none => r.emit "unbound"
+    | none => bad
   | ["op", "bind", m, src, p] =>
     match parseNamed 'm' m, parseNamed 'm' src, parsePathTok p with
     | some _, some _, some key =>
@@ -574,6 +625,15 @@ def execLine (r : RS) (line : String) : RS :=
   | ["op", "set", m, p, v] =>
     match parseNamed 'm' m, parsePathTok p with
     | some _, some key =>
+      if v.startsWith "x" then
+        -- a value that is neither a ResourceMap nor a Handle
+        match Dict.get? r.menv m with
+        | some i =>
+          match (step r.st (.reject i)).2 with
+          | .res (.raised e) => r.emit s!"res raised {e}"
+          | _ => r.emit "res ok"
+        | none => r.emit "unbound"
+      else
       match Dict.get? r.menv m, parseRef r v with
       | some i, some v => ({ r with st := (step r.st (.set i key v)).1 }).emit "res ok"
       | _, _ => r.emit "unbound"
@@ -599,7 +659,7 @@ def execLine (r : RS) (line : String) : RS :=
           ({ r with st := q.1 }).emit (showVal q.2)
         else if kind = "hclear" then ({ r with st := clearH r.st h }).emit "res ok"
         else if kind = "cached" then r.emit s!"cached h{h} {showBool (cachedH r.st h)}"
-        else r.emit s!"stat h{h} loads={(r.st.h h).loads} cached={showBool (r.st.h h).cached}"
+        else r.emit s!"stat h{h} loads={(r.st.h h).loads} tries={(r.st.h h).tries} cached={showBool (r.st.h h).cached}"
     else if kind = "sdump" then
       match parseNamed 's' x with
       | none => bad
